@@ -18,28 +18,35 @@ import (
 type Pkg struct {
 	Imports []int `json:"imports,omitempty"` // indices of lower-numbered packages
 
-	DepFunc    int  `json:"dep_func,omitempty"`   // 0: F not deprecated; 1: deprecated; 2: same-length non-marker comment
-	DepMethod  int  `json:"dep_method,omitempty"` // method T.M: 0 not deprecated; 1 deprecated; 2 same-length non-marker comment
-	Common     int  `json:"common,omitempty"`     // 0: no common.go; 1: common.go whose commonUnused is unused; 2: the same file (same base name, same lines) with commonUnused used
-	TestBody   int  `json:"test_body,omitempty"`  // version counter of the in-package test file only
-	TwoFiles   bool `json:"two_files,omitempty"`  // a second source file with its own problems and a file-ignore directive
-	Generic    bool `json:"generic,omitempty"`    // generic helpers, instantiated here and by importers
-	IfaceUse   bool `json:"iface_use,omitempty"`  // a type whose methods are used only through an interface; an unused method next to it
-	IgnoreU    bool `json:"ignore_u1000,omitempty"` // a //lint:ignore U1000 directive on a line that declares several objects (two variables; a function with a parameter)
-	RecvMix    bool `json:"recvmix,omitempty"`    // with Test: the in-package test file adds a method with another receiver name (ST1016 only in the test variant) and the main file carries a //lint:ignore ST1016 directive
-	Pure       bool `json:"pure,omitempty"`       // Pure has no side effect (purity fact)
-	NonNil     bool `json:"nonnil,omitempty"`     // Mk never returns nil (nilness fact)
-	Local      int  `json:"local,omitempty"`      // bit set of local problems
-	Ignore     int  `json:"ignore,omitempty"`     // 0 none, 1 line ignore that matches, 2 unmatched line ignore, 3 file ignore
-	Initialism bool `json:"initialism,omitempty"` // exported func GetUrl (ST1003 depends on config)
-	RangeInt   bool `json:"rangeint,omitempty"`   // uses range-over-int (needs go1.22)
-	Test       bool `json:"test,omitempty"`       // in-package _test.go using helper()
-	XTest      bool `json:"xtest,omitempty"`      // external test package
-	TagFile    bool `json:"tagfile,omitempty"`    // file guarded by //go:build extra
-	OSFiles    bool `json:"osfiles,omitempty"`    // _linux.go / _windows.go pair
-	Conf       string `json:"conf,omitempty"`     // package-level staticcheck.conf
-	Pad        int  `json:"pad,omitempty"`        // number of blank comment lines at the top of the main file (line-shifting edit)
-	Body       int  `json:"body,omitempty"`       // version counter: changes a constant in a function body
+	DepFunc   int  `json:"dep_func,omitempty"`   // 0: F not deprecated; 1: deprecated; 2: same-length non-marker comment
+	DepMethod int  `json:"dep_method,omitempty"` // method T.M: 0 not deprecated; 1 deprecated; 2 same-length non-marker comment
+	Common    int  `json:"common,omitempty"`     // 0: no common.go; 1: common.go whose commonUnused is unused; 2: the same file (same base name, same lines) with commonUnused used
+	TestBody  int  `json:"test_body,omitempty"`  // version counter of the in-package test file only
+	TwoFiles  bool `json:"two_files,omitempty"`  // a second source file with its own problems and a file-ignore directive
+	Generic   bool `json:"generic,omitempty"`    // generic helpers, instantiated here and by importers
+	IfaceUse  bool `json:"iface_use,omitempty"`  // a type whose methods are used only through an interface; an unused method next to it
+	// DepPure: one function that is both deprecated and pure (an object
+	// carrying facts of two types); importers call it and drop the result.
+	DepPure bool `json:"dep_pure,omitempty"`
+	// Plain: nothing in the package earns an analysis fact (every function
+	// has a side effect and may return nil), so its facts output is empty:
+	// the zero-length data file that all such packages share.
+	Plain      bool   `json:"plain,omitempty"`
+	IgnoreU    bool   `json:"ignore_u1000,omitempty"` // a //lint:ignore U1000 directive on a line that declares several objects (two variables; a function with a parameter)
+	RecvMix    bool   `json:"recvmix,omitempty"`      // with Test: the in-package test file adds a method with another receiver name (ST1016 only in the test variant) and the main file carries a //lint:ignore ST1016 directive
+	Pure       bool   `json:"pure,omitempty"`         // Pure has no side effect (purity fact)
+	NonNil     bool   `json:"nonnil,omitempty"`       // Mk never returns nil (nilness fact)
+	Local      int    `json:"local,omitempty"`        // bit set of local problems
+	Ignore     int    `json:"ignore,omitempty"`       // 0 none, 1 line ignore that matches, 2 unmatched line ignore, 3 file ignore
+	Initialism bool   `json:"initialism,omitempty"`   // exported func GetUrl (ST1003 depends on config)
+	RangeInt   bool   `json:"rangeint,omitempty"`     // uses range-over-int (needs go1.22)
+	Test       bool   `json:"test,omitempty"`         // in-package _test.go using helper()
+	XTest      bool   `json:"xtest,omitempty"`        // external test package
+	TagFile    bool   `json:"tagfile,omitempty"`      // file guarded by //go:build extra
+	OSFiles    bool   `json:"osfiles,omitempty"`      // _linux.go / _windows.go pair
+	Conf       string `json:"conf,omitempty"`         // package-level staticcheck.conf
+	Pad        int    `json:"pad,omitempty"`          // number of blank comment lines at the top of the main file (line-shifting edit)
+	Body       int    `json:"body,omitempty"`         // version counter: changes a constant in a function body
 }
 
 // Mod is a module state.
@@ -48,6 +55,11 @@ type Mod struct {
 	Go       string `json:"go"`
 	Pkgs     []Pkg  `json:"pkgs"`
 	RootConf string `json:"root_conf,omitempty"` // staticcheck.conf at the module root
+	// staticcheck.conf in the directory above the module root (configuration
+	// files are looked up beyond the module boundary). Only engines that put
+	// the module into a private parent directory may set it; they remove the
+	// file themselves when it becomes empty.
+	OuterConf string `json:"outer_conf,omitempty"`
 }
 
 const (
@@ -67,6 +79,9 @@ func (m *Mod) Files() map[string]string {
 	if m.RootConf != "" {
 		out["staticcheck.conf"] = m.RootConf
 	}
+	if m.OuterConf != "" {
+		out["../staticcheck.conf"] = m.OuterConf
+	}
 	for i := range m.Pkgs {
 		m.renderPkg(i, out)
 	}
@@ -76,6 +91,10 @@ func (m *Mod) Files() map[string]string {
 func (m *Mod) renderPkg(i int, out map[string]string) {
 	p := &m.Pkgs[i]
 	name := pkgName(i)
+	if p.Plain {
+		m.renderPlain(i, out)
+		return
+	}
 	var b strings.Builder
 	w := func(f string, a ...any) { fmt.Fprintf(&b, f, a...) }
 	for k := 0; k < p.Pad; k++ {
@@ -119,6 +138,9 @@ func (m *Mod) renderPkg(i int, out map[string]string) {
 	}
 	w("func F() int { return %d }\n\n", 1+p.Body)
 	w("// G does things.\nfunc G() int { return 2 }\n\n")
+	if p.DepPure {
+		w("// Both is pure and deprecated.\n//\n// Deprecated: use Pure.\nfunc Both(a int) int { return a + 1 }\n\n")
+	}
 	if p.Pure {
 		w("// Pure adds.\nfunc Pure(a, b int) int { return a + b }\n\n")
 	} else {
@@ -144,6 +166,9 @@ func (m *Mod) renderPkg(i int, out map[string]string) {
 		w("\t%s.Pure(1, 2)\n", dn)
 		w("\tif %s.Mk() == nil {\n\t\tn++\n\t}\n", dn)
 		w("\tn += %s.Use()\n", dn)
+		if m.Pkgs[d].DepPure && !m.Pkgs[d].Plain {
+			w("\t%s.Both(1)\n", dn)
+		}
 		if len(m.Pkgs[d].Imports) > 0 {
 			// a method of a package two import edges away
 			w("\tn += %s.Via().M()\n", dn)
@@ -192,7 +217,7 @@ func (m *Mod) renderPkg(i int, out map[string]string) {
 		w("// UsePick uses the generic helpers.\nfunc UsePick() int { return usePick() }\n\n")
 	}
 	for _, d := range p.Imports {
-		if m.Pkgs[d].Generic {
+		if m.Pkgs[d].Generic && !m.Pkgs[d].Plain {
 			w("// Via%s instantiates generic helpers of a dependency.\nfunc Via%s() int {\n\tv := %s.Pair[int, int]{L: 1, R: 2}.Swap()\n\treturn %s.Pick(v.L, v.R, false)\n}\n\n", pkgName(d), pkgName(d), pkgName(d), pkgName(d))
 		}
 	}
@@ -233,6 +258,85 @@ func (m *Mod) renderPkg(i int, out map[string]string) {
 		out[name+"/os_linux.go"] = fmt.Sprintf("package %s\n\n// OS is per-OS.\nfunc OS() int {\n\tz := 1\n\tz = z\n\treturn z\n}\n", name)
 		out[name+"/os_windows.go"] = fmt.Sprintf("package %s\n\n// OS is per-OS.\nfunc OS() int {\n\tz := 2\n\tif z == z {\n\t\tz++\n\t}\n\treturn z\n}\n", name)
 	}
+	if p.Conf != "" {
+		out[name+"/staticcheck.conf"] = p.Conf
+	}
+}
+
+// renderPlain renders a package without facts (see Pkg.Plain). It offers
+// what importers use (T, New, M, F, Pure, Mk, Use, Via) and keeps the
+// deprecation switches, the local problems and the configuration file.
+func (m *Mod) renderPlain(i int, out map[string]string) {
+	p := &m.Pkgs[i]
+	name := pkgName(i)
+	var b strings.Builder
+	w := func(f string, a ...any) { fmt.Fprintf(&b, f, a...) }
+	for k := 0; k < p.Pad; k++ {
+		w("//\n")
+	}
+	w("// Package %s is generated.\npackage %s\n\n", name, name)
+	if len(p.Imports) > 0 {
+		w("import (\n")
+		for _, d := range p.Imports {
+			w("\t%q\n", m.Path+"/"+pkgName(d))
+		}
+		w(")\n\n")
+	}
+	w("var sink int\n\nvar flag bool\n\n")
+	w("// T is a type.\ntype T struct {\n\tx int\n}\n\n")
+	w("// New returns a T.\nfunc New() *T {\n\tif flag {\n\t\treturn nil\n\t}\n\tsink++\n\treturn &T{x: sink + %d}\n}\n\n", p.Body)
+	w("// M is a method.\n")
+	switch p.DepMethod {
+	case 1:
+		w("//\n// Deprecated: use N.\n")
+	case 2:
+		w("//\n// Deprecatex: use N.\n")
+	}
+	w("func (t *T) M() int { sink++; return t.x }\n\n")
+	w("// N is a method.\nfunc (t *T) N() int { sink++; return t.x + 1 }\n\n")
+	w("// F does things.\n")
+	switch p.DepFunc {
+	case 1:
+		w("//\n// Deprecated: use G.\n")
+	case 2:
+		w("//\n// Deprecatex: use G.\n")
+	}
+	w("func F() int { sink++; return sink + %d }\n\n", p.Body)
+	w("// G does things.\nfunc G() int { sink++; return sink }\n\n")
+	w("// Pure adds and counts.\nfunc Pure(a, b int) int { sink++; return a + b + sink }\n\n")
+	w("// Iface is an interface.\ntype Iface interface{ Do() }\n\ntype impl struct{}\n\nfunc (impl) Do() { sink++ }\n\n")
+	w("// Mk makes an Iface.\nfunc Mk() Iface {\n\tif flag {\n\t\treturn nil\n\t}\n\treturn impl{}\n}\n\n")
+	if len(p.Imports) > 0 {
+		w("// Via returns a value of a type of a dependency.\nfunc Via() *%s.T { sink++; return %s.New() }\n\n", pkgName(p.Imports[0]), pkgName(p.Imports[0]))
+	}
+	w("// Use uses the dependencies.\nfunc Use() int {\n\tsink++\n\tn := sink\n")
+	for _, d := range p.Imports {
+		dn := pkgName(d)
+		w("\tn += %s.F()\n", dn)
+		w("\tn += %s.New().M()\n", dn)
+		w("\t%s.Pure(1, 2)\n", dn)
+		w("\tif %s.Mk() == nil {\n\t\tn++\n\t}\n", dn)
+		w("\tn += %s.Use()\n", dn)
+		if m.Pkgs[d].DepPure && !m.Pkgs[d].Plain {
+			w("\t%s.Both(1)\n", dn)
+		}
+		if len(m.Pkgs[d].Imports) > 0 {
+			w("\tn += %s.Via().M()\n", dn)
+		}
+	}
+	w("\treturn n\n}\n\n")
+	w("// Local has local problems.\nfunc Local() int {\n\tsink++\n\tx := sink + %d\n", p.Body)
+	if p.Local&LSelfAssign != 0 {
+		w("\tx = x\n")
+	}
+	if p.Local&LIdentical != 0 {
+		w("\tif x == x {\n\t\tx++\n\t}\n")
+	}
+	if p.Local&LBoolCmp != 0 {
+		w("\tvar b bool\n\tif b == true {\n\t\tx++\n\t}\n")
+	}
+	w("\treturn x\n}\n")
+	out[name+"/"+name+".go"] = b.String()
 	if p.Conf != "" {
 		out[name+"/staticcheck.conf"] = p.Conf
 	}
@@ -293,8 +397,8 @@ func (r *Rng) Next() uint64 {
 	z = (z ^ (z >> 27)) * 0x94D049BB133111EB
 	return z ^ (z >> 31)
 }
-func (r *Rng) N(n int) int          { return int(r.Next() % uint64(n)) }
-func (r *Rng) P(permille int) bool  { return r.N(1000) < permille }
+func (r *Rng) N(n int) int            { return int(r.Next() % uint64(n)) }
+func (r *Rng) P(permille int) bool    { return r.N(1000) < permille }
 func (r *Rng) Pick(s []string) string { return s[r.N(len(s))] }
 
 // Shape names the graph shapes.
@@ -311,7 +415,7 @@ func Generate(r *Rng, npkg int, shape string, tests bool) *Mod {
 			NonNil:     r.P(600),
 			Local:      r.N(32),
 			Ignore:     r.N(4),
-			Initialism: r.P(300),
+			Initialism: r.P(450),
 			RangeInt:   r.P(150),
 			IgnoreU:    r.P(250),
 			TwoFiles:   r.P(300),
@@ -320,6 +424,16 @@ func Generate(r *Rng, npkg int, shape string, tests bool) *Mod {
 			IfaceUse:   r.P(300),
 			TagFile:    r.P(200),
 			OSFiles:    r.P(200),
+		}
+		p.DepPure = r.P(400)
+		if r.P(250) {
+			p.Plain = true
+			if p.DepFunc == 1 {
+				p.DepFunc = 2
+			}
+			if p.DepMethod == 1 {
+				p.DepMethod = 2
+			}
 		}
 		if tests {
 			p.Test = r.P(500)
